@@ -373,7 +373,7 @@ const INVALID: &[u8] = b"0OIl +/-_=.,\n\t\0\x7f\x80\xff\xc3";
 fn text_case(rng: &mut Rng, rec: &mut Recorder) -> Vec<u8> {
     let b = random_id(rng);
     let mut s = ref_encode(&b).into_bytes();
-    let kind = rng.below(13);
+    let kind = rng.below(15);
     let name = match kind {
         0 => {
             // strip leading '1's (shorter text, same number)
@@ -446,6 +446,23 @@ fn text_case(rng: &mut Rng, rec: &mut Recorder) -> Vec<u8> {
             s = vec![b'z'; 50];
             s[rng.range(40, 49) as usize] = *rng.pick(INVALID);
             "overflow-then-invalid"
+        }
+        12 | 13 => {
+            // multi-byte UTF-8 characters inside (over-)long text, in particular straddling the
+            // 44-byte mark: error paths that echo or truncate the rejected input must cope
+            let n = rng.range(30, 70) as usize;
+            let mut t: Vec<u8> = (0..n).map(|_| ALPHA[rng.below(58) as usize]).collect();
+            for _ in 0..rng.range(1, 3) {
+                let ch = *rng.pick(&["é", "€", "😀", "ß", "語"]);
+                let pos = if rng.chance(1, 2) { rng.range(40, 46).min(t.len() as u64) as usize } else { rng.below(t.len() as u64 + 1) as usize };
+                // keep earlier insertions intact: only insert on a char boundary
+                let pos = (0..=pos).rev().find(|&i| std::str::from_utf8(&t[..i]).is_ok()).unwrap_or(0);
+                for (k, b) in ch.as_bytes().iter().enumerate() {
+                    t.insert(pos + k, *b);
+                }
+            }
+            s = t;
+            "utf8-multibyte"
         }
         _ => "valid",
     };
@@ -553,7 +570,7 @@ fn main() {
         let s = text_case(&mut rng, &mut rec);
         rec.nontrivial(fnv(&hex(&s)));
         exec(&mut rec, &format!("dec {}", hex(&s)));
-        if s.iter().all(|c| plain(*c)) {
+        if s.iter().all(|c| plain(*c) || *c >= 0x80) && std::str::from_utf8(&s).is_ok() {
             let mut doc = vec![b'"'];
             doc.extend_from_slice(&s);
             doc.push(b'"');
